@@ -37,7 +37,7 @@ class Boom(Exception):
 
 
 # ====================================================================================== WSGI event stream on threads
-def run_wsgi_sse(prefix, n_items, raise_at, consume, line_points, max_timeouts, empty_at=None, cleanup_raises=False, streams=1, shared=False, saturated=False, hold=0.0, event_of=None, trace_builder=False):
+def run_wsgi_sse(prefix, n_items, raise_at, consume, line_points, max_timeouts, empty_at=None, cleanup_raises=False, streams=1, shared=False, saturated=False, hold=0.0, event_of=None, trace_builder=False, charset=None):
     """One execution of `streams` WSGI event-stream responses (each with its own server thread and producer) under the baton
     scheduler. The library's own ThreadPoolExecutor subclass stays in the loop: only the base class's submit() is redirected
     to the controlled-thread pool, so baize's submit() wrapper (context copy) runs for real."""
@@ -111,6 +111,8 @@ def run_wsgi_sse(prefix, n_items, raise_at, consume, line_points, max_timeouts, 
                 r = shared_box["r"]
             elif raise_at == -1:
                 r = WR.SendEventResponse(BadSource(), ping_interval=1)
+            elif charset is not None:
+                r = WR.SendEventResponse(g, ping_interval=1, charset=charset)  # (nothing checks the name before the first event is written)
             else:
                 r = WR.SendEventResponse(g, ping_interval=1)
             it = iter(r({"REQUEST_METHOD": "GET"}, start_response))
@@ -127,7 +129,7 @@ def run_wsgi_sse(prefix, n_items, raise_at, consume, line_points, max_timeouts, 
                     k += 1
             except Boom:
                 obs["server_exc"] = "Boom"
-            except (RuntimeError, ValueError) as e:  # e.g. a failure of the pool's work item surfacing through the response
+            except (RuntimeError, ValueError, LookupError) as e:  # e.g. a failure of the pool's work item surfacing through the response
                 obs["server_exc"] = f"{type(e).__name__}: {e}"
             try:
                 S.point("server-close")
@@ -170,7 +172,7 @@ def run_wsgi_sse(prefix, n_items, raise_at, consume, line_points, max_timeouts, 
     return S.execution(obs)
 
 
-def judge_wsgi_sse(o, n_items, raise_at, consume, empty_at=None, cleanup_raises=False, shared=False):
+def judge_wsgi_sse(o, n_items, raise_at, consume, empty_at=None, cleanup_raises=False, shared=False, liveness_only=False):
     p = []
     for k, other in enumerate(o.get("others", ()), 2):
         sub = dict(other, others=(), watchdog=o["watchdog"], deadlock=o["deadlock"], livelock=o["livelock"], blocked=o["blocked"], thread_exc=[], pool_futures=o["pool_futures"])
@@ -195,6 +197,8 @@ def judge_wsgi_sse(o, n_items, raise_at, consume, empty_at=None, cleanup_raises=
             p.append(f"producer cleanup ran {o['exit']} times for {o['enter']} entries")
         if o["gen_state"] not in ("GEN_CLOSED", "GEN_CREATED") or (o["gen_state"] == "GEN_CREATED" and o["enter"]):
             p.append(f"user generator left in state {o['gen_state']}")
+    if liveness_only:
+        return p
     data = []
     for item in o["got"]:
         if not isinstance(item, bytes):
@@ -374,7 +378,7 @@ def run_asgi(prefix, kind, n_items, raise_at, gate_sends, slow_close, with_disco
     with Session() as s:
         env = s.env
 
-        async def gen():
+        async def gen(own_cleanup=True):
             obs["enter"] += 1
             try:
                 for i in range(n_items):
@@ -403,9 +407,29 @@ def run_asgi(prefix, kind, n_items, raise_at, gate_sends, slow_close, with_disco
                 if raise_at == n_items:
                     raise Boom("end")
             finally:
+                if own_cleanup:
+                    obs["cleanup_started"] += 1
+                    if slow_close:
+                        await env.gate("cleanup")
+                    obs["exit"] += 1
+
+        class Source:
+            """An event source that is not its own iterator: __aiter__() hands out a separate generator, the resource (a
+            subscription, a cursor) is released by the source's own aclose() - the async counterpart of an iterable with close()."""
+
+            def __init__(self):
+                self.inner = None
+
+            def __aiter__(self):
+                self.inner = gen(own_cleanup=False)
+                return self.inner
+
+            async def aclose(self):
                 obs["cleanup_started"] += 1
                 if slow_close:
                     await env.gate("cleanup")
+                if self.inner is not None:
+                    await self.inner.aclose()
                 obs["exit"] += 1
 
         class AIter:
@@ -466,7 +490,7 @@ def run_asgi(prefix, kind, n_items, raise_at, gate_sends, slow_close, with_disco
                 nsend[0] += 1
                 await env.gate(f"s{nsend[0]:02d}")
 
-        g = gen() if producer in ("agen", "idle", "eager") else AIter()
+        g = gen() if producer in ("agen", "idle", "eager") else (Source() if producer == "source" else AIter())
         resp = AR.SendEventResponse(g, ping_interval=10) if kind == "sse" else AR.StreamResponse(g)
         task = s.loop.create_task(resp({"type": "http", "method": "GET", "headers": []}, receive, send))
         loop = s.loop
@@ -818,6 +842,9 @@ def asgi_extra_configs(tier):
                         out.append(((kind, n, raise_at, False, slow_close, disc, 1, None), "class", None))
         for disc in (False, True):
             out.append(((kind, 1, None, False, False, disc, 1, None), "aiter-raises", None))
+            for n in (1, 2):
+                out.append(((kind, n, None, False, False, disc, 1, None), "source", None))  # the iterable is not its own iterator
+            out.append(((kind, 2, 1, False, False, disc, 1, None), "source", None))
         for producer in ("agen", "class"):
             for n in (0, 1, 2):
                 for k in range(0, n + 3):
@@ -839,6 +866,7 @@ def asgi_extra_configs(tier):
 def shards(tier, seed):
     out = [("wsgi_sse", i) for i in range(len(wsgi_configs(tier)))]
     out.append(("wsgi_stream",))
+    out += [("wsgi_sse_charset", n) for n in (1, 2, 3)]
     out += [("asgi", i) for i in range(len(asgi_configs(tier)))]
     out += [("asgi_x", i) for i in range(len(asgi_extra_configs(tier)))]
     out += [("asgi_shared", kind) for kind in ("stream", "sse")]
@@ -878,6 +906,26 @@ def run_shard(desc, tier):
             r.count("distinct_nontrivial")
         if desc[1] == 0:
             r.sample({"driver": "wsgi_sse", "n": n, "raise_at": raise_at, "consume": consume, "ping_timeouts": timeouts, "bounds": bounds_for(tier)})
+    elif desc[0] == "wsgi_sse_charset":
+        # a charset name the interpreter does not know (a typo, a codec missing on the host): the response fails when it first
+        # has to encode something - and however it fails, the server's close() returns, the producer is closed once and no
+        # pool thread stays blocked
+        n = desc[1]
+        outcomes = set()
+        for line_points, bound in bounds_for(tier):
+            def on_exec(x):
+                r.count("evaluations")
+                r.count("traces")
+                r.count("transitions", len(x.choices))
+                outcomes.add((x.obs["deadlock"], x.obs["enter"], x.obs["exit"], x.obs["server_exc"]))
+                probs = judge_wsgi_sse(x.obs, n, None, None, liveness_only=True)
+                if probs:
+                    kind = "deadlock" if "DEADLOCK" in probs[0] else ("livelock" if "LIVELOCK" in probs[0] else probs[0].split(" ")[0])
+                    r.violation(f"wsgi_sse_charset:{kind}", {"driver": "wsgi_sse_charset", "n": n, "line_points": line_points, "schedule": list(x.choices)},
+                                f"WSGI SendEventResponse(charset='utf-9') over a producer of {n} items, the server iterates (outcome {x.obs['server_exc']!r:.60}) and calls close(); schedule {x.obs['trace'][-14:]}: {probs[0]}")
+            dfs(lambda prefix: run_wsgi_sse(prefix, n, None, None, line_points, 1, charset="utf-9"), on_exec, bound=bound)
+        r.count("states", len(outcomes))
+        r.count("distinct_nontrivial")
     elif desc[0] == "asgi_shared":
         kind = desc[1]
         outcomes = set()
@@ -942,6 +990,10 @@ def replay(w):
         x = run_wsgi_sse(list(w["schedule"]), w["n"], w["raise_at"], w["consume"], w["line_points"], w["timeouts"], w.get("empty_at"), w.get("cleanup_raises", False), w.get("streams", 1), w.get("shared", False), w.get("saturated", False), w.get("hold", 0.0))
         probs = judge_wsgi_sse(x.obs, w["n"], w["raise_at"], w["consume"], w.get("empty_at"), w.get("cleanup_raises", False), w.get("shared", False))
         return bool(probs), {"problems": probs, "trace": x.obs["trace"][-30:]}
+    if w["driver"] == "wsgi_sse_charset":
+        x = run_wsgi_sse(list(w["schedule"]), w["n"], None, None, w["line_points"], 1, charset="utf-9")
+        probs = judge_wsgi_sse(x.obs, w["n"], None, None, liveness_only=True)
+        return bool(probs), {"problems": probs, "trace": x.obs["trace"][-20:]}
     if w["driver"] == "asgi_shared":
         x = run_asgi_shared(list(w["schedule"]), w["kind"])
         probs = judge_asgi_shared(x.obs, w["kind"])
